@@ -219,6 +219,12 @@ def record(rng):
     y = rs.normal(0.05, 0.01, n) + (x - 100) * 1e-4
     if rng.random() < 0.5:
         x[rs.choice(n, 3, replace=False)] = np.nan
+    # logarithmic x axis with non-positive (finite) values: those events lie
+    # outside the density grid and count as events with density zero
+    xscale = rng.choice(["linear", "log"])
+    if xscale == "log":
+        neg = rs.choice(n, max(2, n // 9), replace=False)
+        x[neg] = -np.abs(x[neg]) * rs.choice([0.0, 1.0], len(neg))
     m = rs.rand(n) < rng.choice([0.3, 0.7, 1.0])
     if m.sum() < 10:
         m[:10] = True
@@ -231,14 +237,15 @@ def record(rng):
     qn, qd = rng.choice([(1, 2), (1, 10), (9, 10), (1, 4), (19, 20)])
     rec = {"n": 0, "qn": qn, "qd": qd, "below": 0, "atmost": 0,
            "raised": False, "noninterference": True, "kde": kt,
-           "events": int(n), "selected": int(m.sum())}
+           "events": int(n), "selected": int(m.sum()), "xscale": xscale}
     try:
         with warnings.catch_warnings():
             warnings.simplefilter("ignore")
             xm, ym, dens = ds.get_kde_contour(xax="area_um", yax="deform",
-                                              kde_type=kt)
+                                              kde_type=kt, xscale=xscale)
             xm2, ym2, dens2 = sub.get_kde_contour(xax="area_um",
-                                                  yax="deform", kde_type=kt)
+                                                  yax="deform", kde_type=kt,
+                                                  xscale=xscale)
             rec["noninterference"] = bool(
                 np.allclose(dens, dens2, rtol=1e-10, atol=0, equal_nan=True)
                 and np.array_equal(xm, xm2))
@@ -311,7 +318,7 @@ def main(tier, seed, replay=None):
     ev.extra["recorded_accepted"] = len(okset)
     for tid, (_, why) in sorted(rej.items()):
         r = recs[tid - 1]
-        rep.violation("quantile level: %s (%s kde)" % (
+        rep.violation("quantile level: %s (%s kde, %s x scale)" % (
             why if why != "raised" else "raises " + str(r.get("exc")),
-            r["kde"]), str(r), r, size=1000)
+            r["kde"], r["xscale"]), str(r), r, size=1000)
     return rep.finish()
